@@ -133,6 +133,9 @@ CACHES = [
          container='self.B', why='per-object extrapolation table'),
     dict(kind='state', file='mpmath/calculus/quadrature.py', func='QuadratureRule.get_nodes',
          container='self.interval_count', why='unused counter'),
+    dict(kind='state', file='mpmath/ctx_mp.py', func='PrecisionManager.__enter__',
+         container='self.origp', why='stack of saved precisions of one manager object (pushed in __enter__, '
+         'popped in __exit__; C11 rule A-R4), holds no computed value'),
     dict(kind='state', file='mpmath/functions/functions.py', func='SpecialFunctions.__init__',
          container='self._aliases', why='alias table filled at construction'),
     dict(kind='state', file='mpmath/functions/hypergeometric.py', func='hypercomb',
